@@ -83,14 +83,14 @@ func HMacReceiverForeignOrder() {
 		if t == AT_MAC {
 			continue
 		}
-		attrs = append(attrs, VRefAkaAttr{Type: uint8(t), Value: VGenAkaValue(t, vt)})
+		attrs = append(attrs, VRefAkaAttr{Type: VRefAkaNum(t), Value: VGenAkaValue(t, vt)})
 	}
 	// the sender places AT_MAC at an arbitrary position
 	pos := vr.IntIn(0, len(attrs))
 	withMac := func(mac []byte) []VRefAkaAttr {
 		var out []VRefAkaAttr
 		out = append(out, attrs[:pos]...)
-		out = append(out, VRefAkaAttr{Type: uint8(AT_MAC), Value: mac})
+		out = append(out, VRefAkaAttr{Type: VRefAkaNum(AT_MAC), Value: mac})
 		return append(out, attrs[pos:]...)
 	}
 	code, id, sub := vr.U8(), vr.U8(), vr.U8()
